@@ -181,6 +181,18 @@ async def observe(ex, cfg, pj: Proj, order_ids: List[str], loan_index: Dict[str,
                       "amount": pj.units(li.borrowed_symbol, li.borrowed_amount, "borrowed_amount"),
                       "paid": paid, "outInt": out.get(isym, 0),
                       "outOther": any(v for s, v in out.items() if s != isym)})
+    # every filter of get_loans must be the matching sub-list of get_loans(); get_loan(id) must agree with the listing
+    all_loans = await ex.get_loans()
+    loan_listing_ok = True
+    for sym in [None] + list(syms):
+        for flag in (None, True, False):
+            got = [l.id for l in await ex.get_loans(borrowed_symbol=sym, is_open=flag)]
+            exp = [l.id for l in all_loans if (sym is None or l.borrowed_symbol == sym) and (flag is None or l.is_open == flag)]
+            loan_listing_ok = loan_listing_ok and got == exp
+    for l in all_loans[-3:]:
+        one = await ex.get_loan(l.id)
+        loan_listing_ok = loan_listing_ok and (one.id, one.is_open, one.borrowed_symbol, one.borrowed_amount) == \
+            (l.id, l.is_open, l.borrowed_symbol, l.borrowed_amount)
     # loans referenced by orders may have been indexed only now
     for i, (oid, m) in enumerate(zip(order_ids, order_meta)):
         o = by_id.get(oid)
@@ -208,7 +220,7 @@ async def observe(ex, cfg, pj: Proj, order_ids: List[str], loan_index: Dict[str,
     off = pj.offgrid[:]
     pj.offgrid.clear()
     return {"bal": bal, "hold": hold, "bor": bor, "bidask": bidask, "orders": orders, "loans": loans, "totalOk": tot_ok,
-            "listingOk": bool(listing_ok), "offgrid": off, "extraSyms": extra_syms}
+            "listingOk": bool(listing_ok), "loanListingOk": bool(loan_listing_ok), "offgrid": off, "extraSyms": extra_syms}
 
 
 async def run_script_async(script: dict) -> dict:
@@ -306,7 +318,12 @@ async def run_script_async(script: dict) -> dict:
                 raise ValueError(kind)
         except Exception as e:  # noqa: BLE001 - every outcome is part of the trace
             ok, err = False, classify(e)
-        o = await obs()
+        try:
+            o = await obs()
+        except Exception as e:  # noqa: BLE001 - never let the dispatcher swallow a failed observation
+            crash["msg"] = f"observation failed after {kind}: {type(e).__name__}: {e}"
+            d.stop()
+            return
         if rec is None:
             rec = {"kind": kind, "arg": a, "ok": ok, "err": err, "obs": o}
         else:
@@ -334,7 +351,13 @@ async def run_script_async(script: dict) -> dict:
         if k is None or k in seen_bars:
             return
         seen_bars.add(k)
-        out_steps.append({"kind": "bar", "arg": steps[k]["arg"], "ok": True, "err": "", "obs": await obs()})
+        try:
+            o = await obs()
+        except Exception as e:  # noqa: BLE001 - the dispatcher would swallow it and the step would silently vanish
+            crash["msg"] = f"observation failed after bar {steps[k]['arg']}: {type(e).__name__}: {e}"
+            d.stop()
+            return
+        out_steps.append({"kind": "bar", "arg": steps[k]["arg"], "ok": True, "err": "", "obs": o})
         executed["n"] += 1
 
     async def on_order_event(ev):
